@@ -1,22 +1,23 @@
-import FxVerif.Model.C04Claims
+import FxVerif.Model.C04Ibc
 import FxVerif.Model.Util
 /-! line-protocol driver for the C04 model: `lake env lean --run Driver/C04.lean < ops.txt`
 
 Fixed configuration shared with `go/harness/c04`: 3 chains (eth, bsc, polygon), 3 users, token groups
 0 = FX (eth), 1 = module-owned (eth), 2 = module-owned (eth, bsc, polygon), 3 = externally-owned (eth),
-4 = externally-owned (eth, bsc).  Initial holdings: every user 1000 FX and 500 of each external ERC-20. -/
+4 = externally-owned (eth, bsc), 5 = module-owned (bsc) with an IBC voucher alias (transfer/channel-0).  Initial holdings: every user 1000 FX and 500 of each external ERC-20. -/
 open FxVerif FxVerif.Util FxVerif.Model.Ledger FxVerif.Model.Flows FxVerif.Model.C04
 
-def nGroups : Nat := 5
+def nGroups : Nat := 6
 def nUsers : Nat := 3
 
 def cfg0 : Cfg where
   kind := fun g => match g with
     | 0 => some .fx | 1 => some .moduleOwned | 2 => some .moduleOwned
-    | 3 => some .externalOwned | 4 => some .externalOwned | _ => none
+    | 3 => some .externalOwned | 4 => some .externalOwned | 5 => some .moduleOwned | _ => none
   onChain := fun g c => match g, c with
-    | 0, 0 => true | 1, 0 => true | 2, _ => true | 3, 0 => true | 4, 0 => true | 4, 1 => true | _, _ => false
+    | 0, 0 => true | 1, 0 => true | 2, _ => true | 3, 0 => true | 4, 0 => true | 4, 1 => true | 5, 1 => true | _, _ => false
   envBound := true
+  ibcAlias := fun g => g == 5
 
 /-- `m0fx`: FX locked in the eth module account at genesis (given on the `reset` line) -/
 def ledger0 (m0fx : Nat) : Ledger where
@@ -152,18 +153,43 @@ def parseOp2 (ws : List String) : Option Op2 :=
   | ["exec", c, n] => do pure (.exec (← c.toNat?) (← n.toNat?))
   | ws => (parseOp ws).map .base
 
-def step' (s : State2) (line : String) : State2 × String :=
+/-- IBC layer: voucher balances (users, contracts are not receivers of vouchers; `t` = the ibc-transfer module account, whose
+base-coin balance is shown too), voucher supply, ghost counters of packets received / sent -/
+def showState3 (s : State3) : String :=
+  let L := s.s2.base.L
+  let gs := (List.range nGroups).filter cfg0.ibcAlias
+  let ibc := gs.flatMap fun g =>
+    ((List.range nUsers).filterMap fun u =>
+      let v := L.bal (voucher g) (Addr.user u); if v == 0 then none else some s!"u{u}.g{g}V={v}") ++
+    (if L.bal (voucher g) T == 0 then [] else [s!"t.g{g}V={L.bal (voucher g) T}"]) ++
+    (if L.bal (.base g) T == 0 then [] else [s!"t.g{g}B={L.bal (.base g) T}"]) ++
+    (if L.supply (voucher g) == 0 then [] else [s!"s.g{g}V={L.supply (voucher g)}"]) ++
+    (if s.ibcIn g == 0 then [] else [s!"I.g{g}={s.ibcIn g}"]) ++
+    (if s.ibcOut g == 0 then [] else [s!"O.g{g}={s.ibcOut g}"])
+  " ".intercalate ([showState2 s.s2] ++ ibc |>.filter (· != ""))
+
+def parseOp3 (ws : List String) : Option Op3 :=
+  match ws with
+  | ["ibcrecv", g, u, n] => do pure (.ibc (.recv (← g.toNat?) (← u.toNat?) (← n.toNat?)))
+  | ["ibc2base", g, u, n, e] => do pure (.ibc (.toBase (← g.toNat?) (← u.toNat?) (← n.toNat?) (e == "1")))
+  | ["base2ibc", g, u, n] => do pure (.ibc (.toIbc (← g.toNat?) (← u.toNat?) (← n.toNat?)))
+  | ["ibcxfer", g, u, n] => do pure (.ibc (.xfer (← g.toNat?) (← u.toNat?) (← n.toNat?)))
+  | ["xibc", g, u, n] => do pure (.xibc (← g.toNat?) (← u.toNat?) (← n.toNat?))
+  | ["depibc", c, g, u, n] => do pure (.depositIbc (← c.toNat?) (← g.toNat?) (← u.toNat?) (← n.toNat?))
+  | ws => (parseOp2 ws).map .claim
+
+def step' (s : State3) (line : String) : State3 × String :=
   match words line with
   | "reset" :: rest =>
     let m0fx := (rest.head?.bind String.toNat?).getD 0
     -- the FX locked in the eth module account at genesis is what circulates on Ethereum
-    (init2 (initE (ledger0 m0fx) (fun c g => if c = 0 ∧ g = 0 then m0fx else 0)), "ok")
+    (init3 (initE (ledger0 m0fx) (fun c g => if c = 0 ∧ g = 0 then m0fx else 0)), "ok")
   | ws =>
-    match parseOp2 ws with
+    match parseOp3 ws with
     | none => (s, "bad-op")
     | some op =>
-      match step2 cfg0 s op with
-      | .ok s' => (s', "ok " ++ showState2 s')
-      | .error _ => (s, "err " ++ showState2 s)
+      match step3 cfg0 s op with
+      | .ok s' => (s', "ok " ++ showState3 s')
+      | .error _ => (s, "err " ++ showState3 s)
 
-def main : IO Unit := runDriver step' (init2 (init (ledger0 0)))
+def main : IO Unit := runDriver step' (init3 (init (ledger0 0)))
